@@ -1,5 +1,6 @@
 """C01 — client and station derive the same phantom, port and transport secrets."""
 import os
+import re
 
 from lib import gN, gbool, hexs, glist, gZ
 from props import c14
@@ -84,6 +85,23 @@ def gen_cases(ctx):
             add(rand_secret(rng), False, lv, nil_cfg, bool(i & 1), "min", {"kind": "absent", "rand": None, "prefix": None},
                 "legacy-nil-group")
     simple = {"groups": [{"w": 1, "nets": [c14.net(4, 0x0A000000, 8), c14.net(6, 0xFD << 120, 8)], "rp": True}]}
+    # 4. port-range boundaries: secrets whose first port draw is the largest value of the range (port max-1),
+    #    searched with the Python HKDF, so that a range changed on one side is exhibited and not only a shifted minimum
+    import hashlib
+    import hmac as hm_
+    zero = bytes(32)
+    for span, trs in ((65535 - 1024, ["min", "prefix", "dtls"]), (65535 - 22, ["obfs4"])):
+        want = (span - 1).to_bytes(2, "big")
+        for i in range(400000):
+            sec = rng.getrandbits(256).to_bytes(32, "big")
+            prk = hm_.new(b"conjure" * 4, sec, hashlib.sha256).digest()
+            sd = hm_.new(prk, b"\x01", hashlib.sha256).digest()[:16]
+            prk2 = hm_.new(zero, sd, hashlib.sha256).digest()
+            if hm_.new(prk2, b"phantom-select-dst-port\x01", hashlib.sha256).digest()[:2] == want:
+                for tr in trs:
+                    add(sec, False, 4, simple, False, tr, {"kind": "explicit", "rand": True, "prefix": 3 if tr == "prefix" else None},
+                        "port-top")
+                break
     found = 0
     for i in range(200000):
         sec = bytes(rng.getrandbits(8) for _ in range(32))
@@ -212,6 +230,9 @@ def oracle(ctx, c, r):
                  "choice %d, subnet allows randomisation: %s, wire params %s)" % (st["port"], cport, cl["port"], flag, cl["wire"]),
                  brief(c, r))
         return "diff"
+    if c.get("tag") == "port-top" and st["port"] != 65534:
+        ctx.fail("port-top/%s" % c["transport"], "the secret's first port draw is the largest of the transport's range, "
+                 "expected port 65534, station chose %d" % st["port"], brief(c, r))
     if lv >= 3 and flag and not cl["perr"] and not (0 < st["port"] < 65536):
         ctx.fail("port-range", "port %d out of range" % st["port"], brief(c, r))
     # identification secrets
@@ -270,7 +291,7 @@ def run(ctx):
                     "client": {k: r["client"][k] for k in ("ip", "port", "tag", "seed", "wire")}})
     need = ["%s/lv%d/agree" % (t, lv) for t in ("min", "obfs4", "dtls") for lv in range(5)]
     need += ["prefix/lv3/agree", "prefix/lv4/agree", "prefix/lv1/station-err", "min/lv0/legacy-divergence/varint-overflow",
-             "tag:varint-overflow/agree", "tag:legacy-nil-group/agree"]
+             "tag:varint-overflow/agree", "tag:legacy-nil-group/agree", "tag:port-top/agree"]
     need += ["params:%s/%s" % (t, k) for t in TRS for k in ("absent", "default", "explicit")]
     ctx.require_kinds(need)
     mm = ctx.coq_mismatches("der", HEADER, terms, "chk", shard=max(4, (len(terms) + 15) // 16), need_vo=["C01/Run.vo"])
@@ -278,7 +299,13 @@ def run(ctx):
         ctx.cov["mismatches"] += len(mm)
         c, r = cases[mm[0]], res[mm[0]]
         shown = ctx.coq_show("mm", HEADER, "show %s" % g_case(c, r))
-        ctx.broken("correspondence", "the reference derivation (C01.Model station/client, libver 0-4) and the implementation disagree "
-                   "on %d case(s): a derivation moved, stranding deployed clients; first: %s ; [station-keys, station, client-keys, "
-                   "client] match = %s" % (len(mm), {k: r["station"][k] for k in ("out", "ip", "port", "err")}, shown[-400:]),
-                   {"cases": [brief(c, r)], "observed": r})
+        flags = re.findall(r"\b(true|false)\b", shown)[:4]
+        parts = [n for n, f in zip(("station-key-schedule", "station-derivation", "client-key-schedule", "client-derivation"), flags)
+                 if f == "false"] or ["unknown"]
+        what = ("the derivation no longer matches the reference for client library versions 0-4 (%s) on %d case(s): deployed "
+                "clients computing the published algorithm are stranded; first: station %s, client ip=%s port=%s ; model: %s"
+                % (", ".join(parts), len(mm), {k: r["station"][k] for k in ("out", "ip", "port", "err")}, r["client"]["ip"],
+                   r["client"]["port"], shown[-260:]))
+        # the reference for deployed versions IS the model: the mismatching registration is the failing input
+        ctx.fail("derivation-moved/" + "+".join(parts), what, brief(c, r))
+        ctx.broken("correspondence", what, {"cases": [brief(c, r)], "observed": r})
